@@ -219,10 +219,44 @@ Proof.
         [ destruct (Nat.eq_dec a0 a) as [->|Na]; [right; right; reflexivity|];
           rewrite upd_neq in Hav by exact Na;
           match type of Hav with avail _ _ ?s1 _ =>
-            destruct (avail_sys cap peer peer_inv s x m r p' ev s1 (A s a0) Es eq_refl Hav); [left|right; left]; assumption end | ]
+            destruct (avail_sys cap peer peer_inv s x m r p' ev s1 (A s a0) Es eq_refl eq_refl Hav); [left|right; left]; assumption end | ]
+    | Es : syscall _ _ ?s ?x ?m = SysK ?r ?kn' ?ev |- _ =>
+        let X := fresh "X" in
+        assert (X : avail cap peer s (A s a0) \/ ev = Some (afd (A s a0)) \/ a0 = a);
+        [ destruct (Nat.eq_dec a0 a) as [->|Na]; [right; right; reflexivity|];
+          rewrite upd_neq in Hav by exact Na; rewrite upd_neq in Hj by exact Na;
+          assert (Nf : afd (A s a0) <> afd (A s a))
+            by (intro E; apply Na; apply (flight_distinct cap peer selof s I a0 a);
+                [apply inJ_inflight; exact Hj | rw_goal; reflexivity | exact E]);
+          match type of Hav with avail _ _ ?s1 _ =>
+            destruct (avail_sysk cap peer s x m r kn' ev s1 (A s a0) Es eq_refl eq_refl Nf Hav); [left|right; left]; assumption end | ]
+    | Es : syscall _ _ ?s ?x ?m = SysAgainK ?kn' |- _ =>
+        destruct (Nat.eq_dec a0 a) as [->|Na];
+        [ exfalso; rewrite upd_eq in Hav; simp;
+          match type of Hav with avail _ _ ?s1 ?x1 =>
+            exact (againk_not_avail cap peer s x m kn' s1 x1 Es eq_refl eq_refl eq_refl Hav) end
+        | rewrite upd_neq in Hav by exact Na; rewrite upd_neq in Hj by exact Na;
+          assert (Nf : afd (A s a0) <> afd (A s a))
+            by (intro E; apply Na; apply (flight_distinct cap peer selof s I a0 a);
+                [apply inJ_inflight; exact Hj | rw_goal; reflexivity | exact E]);
+          let Ek := fresh "Ek" in
+          destruct (sys_againk cap peer s x m kn' Es) as [_ Ek];
+          match type of Hav with avail _ _ ?s1 _ =>
+            apply (avail_kupd cap peer s s1 _ _ (A s a0) eq_refl Ek Nf) in Hav end ]
     | Es : syscall _ _ ?s ?x ?m = SysAgain |- _ => pose proof (sys_again cap peer s x m Es)
     end.
-  all: try (apply (avail_ext cap peer _ s) in Hav; [|reflexivity]).
+  (* the outcome of a connection attempt, a connection entering a backlog *)
+  all: try match type of Hav with avail _ _ ?s1 ?y =>
+         match s1 with wpend (wKn ?s (upd (Kn ?s) ?f (k_st _ ?c))) _ =>
+         let X := fresh "X" in
+         destruct (avail_kst cap peer s s1 f c y eq_refl eq_refl Hav) as [X|X];
+         [ clear Hav; rename X into Hav | right; rewrite X; apply upd_eq ] end end.
+  all: try match type of Hav with avail _ _ ?s1 ?y =>
+         match s1 with context [enqueue (upd (Kn ?s) ?f (k_deliv _))] =>
+           let X := fresh "X" in
+           destruct (avail_deliver cap peer s s1 f y eq_refl eq_refl Hav) as [X|X];
+           [ clear Hav; rename X into Hav | try congruence; right; replace (afd y) with n by congruence; apply upd_eq ] end end.
+  all: try (apply (avail_ext cap peer _ s) in Hav; [|reflexivity|reflexivity]).
   all: upds; fin.
   all: try (exfalso; match goal with
             | Na : ?a0 <> ?a, E : afd (A ?s ?a0) = afd (A ?s ?a) |- _ =>
@@ -232,7 +266,7 @@ Proof.
   all: try (match goal with X : avail _ _ _ _ \/ _ \/ _ |- _ =>
               destruct X as [X|[X|X]]; [apply iJ; assumption | try discriminate; inversion X; congruence | congruence] end).
   all: try (match type of Hav with avail _ _ ?s1 _ =>
-              destruct (avail_shut cap peer peer_inv s _ s1 _ eq_refl Hav) as [X|X]; [apply iJ; assumption | congruence] end).
+              destruct (avail_shut cap peer peer_inv s _ s1 _ eq_refl eq_refl Hav) as [X|X]; [apply iJ; assumption | congruence] end).
 Qed.
 
 (* K: a coroutine published while io_flag is set is about to be taken *)
